@@ -41,13 +41,15 @@ func OnceValues[T1, T2 any](f func() (T1, T2)) func() (T1, T2) { return sync.Onc
 
 // Controller decides the answers of the environment.
 type Controller interface {
-	// PoolGet returns (item, true) to hand out a pooled item or (nil, false) to make the
-	// pool call New (or return nil when New is nil).
-	PoolGet(p *Pool) (any, bool)
-	PoolPut(p *Pool, x any)
+	// PoolGet returns (item, true, true) to hand out a pooled item or (nil, false, true) to make
+	// the pool call New (or return nil when New is nil).  handled=false: the caller is not one
+	// of the controller's goroutines (a finalizer, a goroutine started by the library); the real
+	// primitive is used.
+	PoolGet(p *Pool) (x any, ok bool, handled bool)
+	PoolPut(p *Pool, x any) (handled bool)
 	// Lock blocks (in the scheduler's sense) until the lock is free.
-	Lock(m *Mutex)
-	Unlock(m *Mutex)
+	Lock(m *Mutex) (handled bool)
+	Unlock(m *Mutex) (handled bool)
 }
 
 // Global, when non-nil, controls every Pool and Mutex of the process.
@@ -81,10 +83,10 @@ var Passthrough Controller = passthrough{}
 
 type passthrough struct{}
 
-func (passthrough) PoolGet(p *Pool) (any, bool) { panic("unreachable") }
-func (passthrough) PoolPut(p *Pool, x any)      { panic("unreachable") }
-func (passthrough) Lock(m *Mutex)               { panic("unreachable") }
-func (passthrough) Unlock(m *Mutex)             { panic("unreachable") }
+func (passthrough) PoolGet(p *Pool) (any, bool, bool) { return nil, false, false }
+func (passthrough) PoolPut(p *Pool, x any) bool       { return false }
+func (passthrough) Lock(m *Mutex) bool                { return false }
+func (passthrough) Unlock(m *Mutex) bool              { return false }
 
 func current() Controller {
 	if g := Global; g != nil {
@@ -112,13 +114,15 @@ type Pool struct {
 
 func (p *Pool) Get() any {
 	if c := current(); c != nil {
-		if x, ok := c.PoolGet(p); ok {
-			return x
+		if x, ok, handled := c.PoolGet(p); handled {
+			if ok {
+				return x
+			}
+			if p.New != nil {
+				return p.New()
+			}
+			return nil
 		}
-		if p.New != nil {
-			return p.New()
-		}
-		return nil
 	}
 	p.once.Do(func() { p.real.New = p.New })
 	return p.real.Get()
@@ -128,8 +132,7 @@ func (p *Pool) Put(x any) {
 	if x == nil {
 		return
 	}
-	if c := current(); c != nil {
-		c.PoolPut(p, x)
+	if c := current(); c != nil && c.PoolPut(p, x) {
 		return
 	}
 	p.once.Do(func() { p.real.New = p.New })
@@ -144,8 +147,7 @@ type Mutex struct {
 }
 
 func (m *Mutex) Lock() {
-	if c := current(); c != nil {
-		c.Lock(m)
+	if c := current(); c != nil && c.Lock(m) {
 		m.real.Lock() // never blocks: the controller granted exclusivity; keeps the race detector's happens-before edges
 		return
 	}
@@ -157,12 +159,10 @@ func (m *Mutex) TryLock() bool {
 }
 
 func (m *Mutex) Unlock() {
-	if c := current(); c != nil {
-		m.real.Unlock()
-		c.Unlock(m)
-		return
-	}
 	m.real.Unlock()
+	if c := current(); c != nil {
+		c.Unlock(m)
+	}
 }
 
 // RWMutex is modelled as an exclusive lock under a controller (a sound restriction of
